@@ -48,7 +48,7 @@ impl Blob {
     }
 
     pub(crate) fn from_parent_node(tag_name: &str, parent_node: &Node) -> Result<Option<Self>> {
-        if let Some(node) = &parent_node.children().find(|n| n.has_tag_name(tag_name)) {
+        if let Some(node) = &parent_node.children().find(|n| crate::xml::is_tag(n, tag_name)) {
             Ok(Some(Self::from_node(node)?))
         } else {
             Ok(None)
